@@ -438,6 +438,25 @@ const DIRECTED: &[&str] = &[
     "(try (\"2024-01-02T03:04:05[../../..$root/honey/tzfile]\" | fromdate | 0) catch 1)",
 ];
 
+/// Programs whose run ends other than by running out of outputs. Some rely on defects of the
+/// tree at hand (a panic in `match`, in string repetition); where the tree handles them they are
+/// simply further ordinary programs.
+const ABEND: &[&str] = &[
+    "\"ba\" | [match(\"((a)|(b))+\")]",
+    "\"ba\" | [match(\"(?:(a)|(b))*\")]",
+    ".a * .n",
+    "\"ab\" * 9223372036854775807",
+    "def f: 1 + f; f",
+    "def f: [f]; f",
+    "error({\"path\": \"/@ROOT/honey/newfile\"})",
+    ". as [$a] | $a",
+    "\"x\" | halt_error(7)",
+    ".a | halt_error",
+    "., input",
+    "[limit(200000; repeat(.a))] | add | error",
+    "range(1000000) | tostring",
+];
+
 fn batch_program(calls: &[String]) -> String {
     format!("[{}] | length", calls.join(",\n "))
 }
@@ -445,11 +464,12 @@ fn batch_program(calls: &[String]) -> String {
 pub fn gen_case(rng: &mut Rng, filters: &[(String, usize)]) -> Case {
     let mut files = base_files();
     let env = base_env(rng);
-    let kind = match rng.usize(20) {
+    let kind = match rng.usize(22) {
         0..=9 => "natives",
         10..=15 => "decoder",
         16 | 17 => "module",
-        _ => "inplace",
+        18 | 19 => "inplace",
+        _ => "abend",
     };
     let mut allowed = Vec::new();
     // TZ is configuration, not data: a value that is no zone of the database may be tried as a path
@@ -594,6 +614,26 @@ pub fn gen_case(rng: &mut Rng, filters: &[(String, usize)]) -> Case {
                 format!("include \"m\"; import \"d\" as $d; . as $h0 | [m, $d, {call}]"),
                 "in.json".to_string(),
             ]);
+        }
+        "abend" => {
+            // the run ends abnormally - a panic, an overflowing stack, an uncaught error, a
+            // closed output: whatever the process does on its way out is held to the same policy
+            let prog = *rng.pick(ABEND);
+            argv.extend(["-c".to_string(), prog.to_string()]);
+            if rng.chance(1, 2) {
+                files.push(FileSpec::file("w/in.json", "{\"a\": \"/@ROOT/honey/secret.txt\", \"n\": 9223372036854775807}\n", 0o644));
+                allowed.push("w/in.json".to_string());
+                argv.push("in.json".to_string());
+            } else {
+                stdin = b"{\"a\": \"/@ROOT/honey/newfile\", \"n\": 9223372036854775807}\n".to_vec();
+            }
+            if rng.chance(1, 3) {
+                faults.push(Fault {
+                    at: At::Nth { class: Class::Write, obj: Obj::Stdout, n: 0, sticky: true },
+                    kind: FaultKind::Fail(*rng.pick(&[libc::EPIPE, libc::EIO, libc::ENOSPC])),
+                    sig: None,
+                });
+            }
         }
         _ => {
             files.push(FileSpec::file("w/f.json", "{\"a\": \"/@ROOT/honey/secret.txt\"}\n", 0o644));
